@@ -53,11 +53,28 @@ TEXTBOOK = [
 ]
 
 
+def reverse_pair_family(tier):
+    """a reaction together with its exact reverse, plus one more reaction (any over 3 species, coefficients <= 2) or two more
+    (unit coefficients): the pair's net flux is a free variable the rest may need"""
+    S3 = [r for r in ec.reactions(3, 2)]
+    U3 = [r for r in ec.reactions(3, 1)]
+    bases = [((1, 0, 0), (0, 1, 0)), ((1, 1, 0), (0, 0, 1)), ((2, 0, 0), (0, 1, 0))]
+    for l, r in bases:
+        pair = ((l, r), (r, l))
+        for x in S3:
+            yield pair + (x,)
+        for i, x in enumerate(U3):
+            for y in U3[i:]:
+                yield pair + (x, y)
+
+
 def gen(tier, seed):
     for net in ec.networks(3, 2, 2, quotient=(tier == "quick")):
         yield ec.net_str(net)
     for s in TEXTBOOK:
         yield s
+    for net in reverse_pair_family(tier):
+        yield ec.net_str(net)
     if tier != "quick":
         for net in ec.networks(3, 3, 1, rmin=3):
             yield ec.net_str(net)
